@@ -184,6 +184,17 @@ pub fn zoo(tier: Tier) -> Vec<Entry> {
             pc("water+solvating(induced)", Arc::new(p), 647.0, true, None);
         }
     }
+    // association schemes the shipped files do not contain: a self-complementary C site next to an A/B pair (the
+    // `(1, 1, false)` arm of the generic association term), unequal site counts, a pure C-site component
+    {
+        let rec = |name: &str, eps_ab: f64, na: Option<f64>, nb: Option<f64>, nc: Option<f64>| PureRecord::new(Identifier::new(None, Some(name), None, None, None, None), 46.0, PcSaftRecord::new(1.9, 3.3, 205.0, None, None, Some(0.03), Some(eps_ab), na, nb, nc, None, None, None));
+        let alcohol = rec("alcohol(2B)", 2600.0, Some(1.0), Some(1.0), None);
+        let acid = rec("acid(1C)", 3000.0, None, None, Some(1.0));
+        let three_b = rec("amine(3B)", 1500.0, Some(2.0), Some(1.0), None);
+        pc("alcohol(2B)+acid(1C)", Arc::new(PcSaftParameters::new_binary(vec![alcohol.clone(), acid.clone()], None).unwrap()), 700.0, true, None);
+        pc("acid(1C)", Arc::new(PcSaftParameters::new_pure(acid.clone()).unwrap()), 700.0, false, None);
+        pc("amine(3B)+alcohol(2B)", Arc::new(PcSaftParameters::new_binary(vec![three_b, alcohol], None).unwrap()), 700.0, false, None);
+    }
     // DQ variant
     {
         let p = pcsaft_params(&[(&["acetone"], "gross2006"), (&["carbon dioxide"], "gross2005_fit")]);
